@@ -122,7 +122,10 @@ def selfcheck(ctx):
 
 
 ESCAPES = ['\\"', '\\\\', '\\b', '\\f', '\\n', '\\r', '\\t', '\\u0041', '\\u00e9', '\\u4e2d', '\\u0000', '\\u001f',
-           '\\u2028', '\\u007f']
+           '\\u2028', '\\u007f',
+           # escapes of single surrogate code units (legal in JSON and ES5; a JSON parser returns them as they are);
+           # spelled so that a high one is never directly followed by a low one - that is a pair, see the findings
+           '\\ud800x', 'x\\udfff', '\\udbff-', '.\\udc00']
 RAW = ['a', 'Z', ' ', '\xe9', '\u4e2d', '\U0001f600', '/', "'", '{', '}', '[', ',', ':', '0', '-', 'true', 'null',
        '__proto__', 'constructor', '', '\x7f', '\xa0', '\ufeff']
 NUMBERS = ['0', '-0', '1', '-1', '7', '10', '123456789', '9007199254740993', '-9007199254740993',
